@@ -30,8 +30,9 @@ func crdDoc(name string) string {
 }
 
 // buildChart makes a fresh *chart.Chart (Helm mutates what it is given).
-// reject names the chart definitions that get the rejecting schema.
-func buildChart(d *ChartDef, reject map[string]bool) *chart.Chart {
+// reject names the chart definitions that get the rejecting schema; the other
+// charts get a schema their values satisfy (install leg) or none.
+func buildChart(d *ChartDef, reject map[string]bool, acceptSchemas bool) *chart.Chart {
 	ch := &chart.Chart{Metadata: &chart.Metadata{Name: d.Name, Version: "0.1.0", APIVersion: "v2"}}
 	ch.Templates = []*chart.File{
 		{Name: "templates/probe.yaml", Data: []byte(probeTpl)},
@@ -41,7 +42,7 @@ func buildChart(d *ChartDef, reject map[string]bool) *chart.Chart {
 	ch.Values = copyMap(d.Defaults)
 	if reject[d.Name] {
 		ch.Schema = []byte(rejectSchema)
-	} else {
+	} else if acceptSchemas {
 		ch.Schema = []byte(acceptSchema)
 	}
 	for _, dep := range d.Deps {
@@ -49,7 +50,7 @@ func buildChart(d *ChartDef, reject map[string]bool) *chart.Chart {
 			Name: dep.Name, Alias: dep.Alias, Condition: dep.Condition, Tags: append([]string{}, dep.Tags...), Version: "0.1.0", Repository: "file://../" + dep.Name})
 	}
 	for _, s := range d.Subs {
-		ch.AddDependency(buildChart(s, reject))
+		ch.AddDependency(buildChart(s, reject, acceptSchemas))
 	}
 	return ch
 }
@@ -117,7 +118,7 @@ func runHelm(cs *Case, reject map[string]bool) (obs observed) {
 			obs.Err = fmt.Sprintf("panic: %v", r)
 		}
 	}()
-	ch := buildChart(cs.Root, reject)
+	ch := buildChart(cs.Root, reject, cs.Install || cs.LiveSchema != "")
 	user := copyMap(cs.User)
 	if err := chartutil.ProcessDependencies(ch, user); err != nil {
 		obs.Err = "ProcessDependencies: " + err.Error()
@@ -168,7 +169,7 @@ func runInstall(cs *Case, reject map[string]bool) (oi *observedInstall) {
 	inst.IncludeCRDs = true
 	inst.ReleaseName = "r"
 	inst.Namespace = "default"
-	rel, err := inst.Run(buildChart(cs.Root, reject), copyMap(cs.User))
+	rel, err := inst.Run(buildChart(cs.Root, reject, true), copyMap(cs.User))
 	if err != nil {
 		oi.Err = err.Error()
 		return
